@@ -16,19 +16,19 @@ MoveOut(u, fn) == ResStepOf(Move(u, Pick(FreeFor(u) \cap (SlotPlaces \cup StoreP
 S2(coin, u, v, w, nest, anc, i, j, k, k2, a, p, y, fn, d3) ==
      \/ ResStepOf(Begin)
      \/ ((coin = 1 /\ nops >= 3) \/ nops >= MaxOps) /\ ResStepOf(Commit)
-     \/ (coin \in {1, 2} \/ Live(loc) = {}) /\ ResStepOf(Create(SlotPl(i)))
-     \/ coin \in {3, 4, 5, 6} /\ MoveSome(u, coin <= 4, fn)
+     \/ (coin \in {1, 2, 3, 9, 10} \/ Live(loc) = {}) /\ ResStepOf(Create(SlotPl(i)))
+     \/ coin \in {1, 2, 3, 4, 5, 6, 8} /\ MoveSome(u, coin <= 4, fn)
      \/ coin = 7 /\ ResStepOf(Move(v, d3, FALSE))
      \/ coin = 8 /\ ResStepOf(Swap(i, j))
      \/ coin = 8 /\ ResStepOf(Shift(w, v, d3))
      \/ coin = 9 /\ ResStepOf(Destroy(u))
-     \/ coin \in {2, 5, 9} /\ TakeRef(k, nest)
+     \/ coin \in {2, 4, 5, 9} /\ TakeRef(k, nest)
      \/ coin \in {1, 7} /\ TakeRef(k, v)
-     \/ coin \in {6, 10} /\ MoveOut(anc, fn)
+     \/ coin \in {5, 6, 10} /\ MoveOut(anc, fn)
      \/ coin = 10 /\ ResStepOf(Destroy(anc))
      \/ coin = 9 /\ Borrow(k, a, p, y)
-     \/ coin \in {4, 8, 10} /\ UseRef(k2)
-     \/ coin = 7 /\ ResStepOf(Peek)
+     \/ coin \in {3, 4, 6, 8, 10} /\ UseRef(k2)
+     \/ coin \in {2, 7} /\ ResStepOf(Peek)
 S1(coin, live) ==
   S2(coin,
      Pick(IF coin <= 4 /\ Referenced \cap live # {} THEN Referenced \cap live ELSE live, 1),
